@@ -1505,7 +1505,7 @@ theorem token_is_servers_token (cdc : Bool) (wire : List Nat) (values : List Par
     (hv : values.length ≤ 65535) (hbound : C03.keyOf wire values = comps.map some)
     (hsmall : 2 ≤ comps.length → ∀ c ∈ comps, c.length ≤ 65535) :
     PartitionKey.calculateToken cdc (PartitionKey.pkIndexesOfWire wire) values =
-      .ok (some (if cdc then Murmur3.cdcSpec (PartitionKey.encodeKey comps)
+      .ok (some (if cdc then Murmur3.cdcRust (PartitionKey.encodeKey comps)
         else Murmur3.murmur3Spec (PartitionKey.encodeKey comps))) ∧
     Murmur3.murmur3Spec (PartitionKey.encodeKey comps) ≠ Int64.minValue :=
   ⟨C03.token_formula cdc wire values comps hne hnd hlt hv hbound hsmall, C03.murmur3Spec_ne_min _⟩
